@@ -268,9 +268,9 @@ PROPS = {
                            'Tie: awsops/fleetops streams run the real provider over the simulated AWS; full call arguments compared; predicates monitored on observed journals.',
                 level_note=LEVEL_NOTE),
     'C18': dict(level='proof', module='EscProofs.P.C18',
-                streams=dict(quick=[('fleetops', ['-n', 160]), ('hist', ['-n', 8, '-scans', 6, '-focus', 'fleet'])],
-                             thorough=[('fleetops', ['-n', 3200]), ('hist', ['-n', 200, '-scans', 8, '-focus', 'fleet'])],
-                             search=[('fleetops', ['-n', 400]), ('hist', ['-n', 40, '-scans', 8, '-focus', 'fleet'])]),
+                streams=dict(quick=[('fleetops', ['-n', 160]), ('hist', ['-n', 8, '-scans', 6, '-focus', 'fleet']), ('hist', ['-n', 24, '-scans', 8, '-focus', 'fleetfail'])],
+                             thorough=[('fleetops', ['-n', 3200]), ('hist', ['-n', 200, '-scans', 8, '-focus', 'fleet']), ('hist', ['-n', 600, '-scans', 10, '-focus', 'fleetfail'])],
+                             search=[('fleetops', ['-n', 400]), ('hist', ['-n', 40, '-scans', 8, '-focus', 'fleet']), ('hist', ['-n', 80, '-scans', 8, '-focus', 'fleetfail'])]),
                 aspects=['journal', 'outcome'], monitors=['C18'],
                 theorems=['Esc.P.C18_no_leak', 'Esc.P.C18_error_reported', 'Esc.P.C18_no_lock', 'Esc.P.attachChunks_flatten', 'Esc.P.termChunks_flatten'],
                 technique='Lean 4 theorem over the model of attachInstancesToASG/terminateOrphanedInstances (permutation argument over batches, all failure points) + differential correspondence with fault injection at every call + monitor',
@@ -292,9 +292,9 @@ PROPS = {
                            'or failed call; C19_count <= desired-min; C19_k8s_after_cloud / C19_scan_batches: Node deletions only after the whole batch was accepted, for both batches of a scan; C19_not_member_*: the error ends the scan and makes RunOnce fatal; C19_membership_fresh: "member" and "minimum" are those of an answer the cloud gave in this same scan (distinct cloud groups). '
                            'Tie: awsops (provider level) and hist (controller level) + monitors.',
                 level_note=LEVEL_NOTE),
-    'C12': dict(level='proof', module='EscProofs.P.C12', streams=dict(quick=[('scenario', ['-dir', '@ROOT/corpus/C12']), ('hist', ['-n', 400, '-scans', 10, '-focus', 'multi']), ('hist', ['-n', 16, '-scans', 6, '-focus', 'fleet']), ('assemble', ['-n', 120, '-bin', '@BUILD/escalator-verif-bin'])],
-                             thorough=[('scenario', ['-dir', '@ROOT/corpus/C12']), ('hist', ['-n', 20000, '-scans', 12, '-focus', 'multi']), ('hist', ['-n', 300, '-scans', 8, '-focus', 'fleet']), ('assemble', ['-n', 3000, '-bin', '@BUILD/escalator-verif-bin'])],
-                             search=[('hist', ['-n', 1500, '-scans', 12, '-focus', 'multi']), ('hist', ['-n', 60, '-scans', 8, '-focus', 'fleet']), ('assemble', ['-n', 400, '-bin', '@BUILD/escalator-verif-bin'])]),
+    'C12': dict(level='proof', module='EscProofs.P.C12', streams=dict(quick=[('scenario', ['-dir', '@ROOT/corpus/C12']), ('hist', ['-n', 400, '-scans', 10, '-focus', 'multi']), ('hist', ['-n', 16, '-scans', 6, '-focus', 'fleet']), ('assemble', ['-n', 120, '-bin', '@BUILD/escalator-verif-bin']), ('hist', ['-n', 24, '-scans', 8, '-focus', 'fleetfail'])],
+                             thorough=[('scenario', ['-dir', '@ROOT/corpus/C12']), ('hist', ['-n', 20000, '-scans', 12, '-focus', 'multi']), ('hist', ['-n', 300, '-scans', 8, '-focus', 'fleet']), ('assemble', ['-n', 3000, '-bin', '@BUILD/escalator-verif-bin']), ('hist', ['-n', 600, '-scans', 10, '-focus', 'fleetfail'])],
+                             search=[('hist', ['-n', 1500, '-scans', 12, '-focus', 'multi']), ('hist', ['-n', 60, '-scans', 8, '-focus', 'fleet']), ('assemble', ['-n', 400, '-bin', '@BUILD/escalator-verif-bin']), ('hist', ['-n', 80, '-scans', 8, '-focus', 'fleetfail'])]),
                 aspects=['hist:journal', 'hist:reccount', 'hist:outcome', 'assemble-cloud', 'assemble-groups', 'assemble-no-dump', 'bad-case'], monitors=['C12'], py_monitor=c12_twin_monitor,
                 theorems=['Esc.P.C12_targets', 'Esc.P.C12_frame', 'Esc.P.C12_containment', 'Esc.P.C12_fatal_kinds', 'Esc.P.scanGroup_gid', 'Esc.P.assemble_cloud_own', 'Esc.P.assemble_cloud_other_entries_irrelevant', 'Esc.P.main_wiring'],
                 technique='Lean 4 theorem (targets from the journal anatomy; frame lemma for the per-group loop by induction over the configured groups; containment by case analysis of the loop) + differential correspondence on per-group journals with 2-3 groups + monitor + metamorphic twin run of the implementation (same scan on a second controller whose world differs only inside one group; the other groups\' calls and state must be identical)',
@@ -345,9 +345,9 @@ PROPS = {
                            'Tie: taintops (direct calls, stale views, odd taint values, faults) and hist; full objects compared (plus a digest of every unmodelled field); monitor on observed GET/UPDATE pairs.',
                 level_note=LEVEL_NOTE),
     'C20': dict(level='proof', module='EscProofs.P.C20',
-                streams=dict(quick=[('scenario', ['-dir', '@ROOT/corpus/C20']), ('hist', ['-n', 500, '-scans', 8, '-focus', 'faults']), ('hist', ['-n', 16, '-scans', 7, '-focus', 'churn', '-slow'])],
-                             thorough=[('scenario', ['-dir', '@ROOT/corpus/C20']), ('hist', ['-n', 30000, '-scans', 10, '-focus', 'faults']), ('hist', ['-n', 160, '-scans', 6, '-focus', 'faults', '-slow']), ('hist', ['-n', 160, '-scans', 8, '-focus', 'churn', '-slow'])],
-                             search=[('hist', ['-n', 2500, '-scans', 8, '-focus', 'faults']), ('hist', ['-n', 32, '-scans', 8, '-focus', 'churn', '-slow'])]),
+                streams=dict(quick=[('scenario', ['-dir', '@ROOT/corpus/C20']), ('hist', ['-n', 500, '-scans', 8, '-focus', 'faults']), ('hist', ['-n', 16, '-scans', 7, '-focus', 'churn', '-slow']), ('hist', ['-n', 24, '-scans', 8, '-focus', 'fleetfail'])],
+                             thorough=[('scenario', ['-dir', '@ROOT/corpus/C20']), ('hist', ['-n', 30000, '-scans', 10, '-focus', 'faults']), ('hist', ['-n', 160, '-scans', 6, '-focus', 'faults', '-slow']), ('hist', ['-n', 160, '-scans', 8, '-focus', 'churn', '-slow']), ('hist', ['-n', 600, '-scans', 10, '-focus', 'fleetfail'])],
+                             search=[('hist', ['-n', 2500, '-scans', 8, '-focus', 'faults']), ('hist', ['-n', 32, '-scans', 8, '-focus', 'churn', '-slow']), ('hist', ['-n', 80, '-scans', 8, '-focus', 'fleetfail'])]),
                 aspects=['hist:outcome', 'hist:reccount', 'hist:ok', 'panic'], monitors=['C20'],
                 theorems=['Esc.P.C20_outcomes', 'Esc.P.C20_fatal_only_partial', 'Esc.P.C20_contained', 'Esc.P.C20_provider_id_guard', 'Esc.P.C20_ready_bounded',
                           'Esc.P.C12_containment', 'Esc.P.C20_stop_founded', 'Esc.P.tryDelete_notInGroup'],
